@@ -96,3 +96,29 @@ func RunEval(t *testing.T, c *Case, s Sched, keepLog bool) *Obs {
 	o.Dump = joinParts(parts)
 	return o
 }
+
+// RunEval2 executes kind "eval2": two independent callers evaluate two expressions on two
+// separate environments at the same time (two caller tasks under one scheduler).
+func RunEval2(t *testing.T, c *Case, s Sched, keepLog bool) *Obs {
+	sim := MakeSim(s, keepLog)
+	o := &Obs{Sched: s, Extra: map[string]string{}}
+	o.Sched.Policy = sim.Policy.Name()
+	if s.UseTape {
+		o.Sched.Policy = "tape"
+	}
+	parts := make([]string, 2)
+	mk := func(i int, expr string) func() {
+		return func() { parts[i] = SoloEval(c, expr) }
+	}
+	o.Res = gosim.RunInBubble(t, sim, mk(0, c.Src), mk(1, c.Src2))
+	o.Parts = parts
+	o.Dump = joinParts(parts)
+	return o
+}
+
+// SoloEval evaluates expr on a fresh environment built from the case and dumps value, error and store.
+func SoloEval(c *Case, expr string) string {
+	env := newEnv(c)
+	n, err := env.Eval(expr)
+	return fmt.Sprintf("n=%d %s %s", n, DumpErr(err), dumpEnv(env))
+}
